@@ -257,6 +257,20 @@ def run(ck, F, tier):
     srs = by_name(calls, "sort_by_random_sel")
     ok = len(cm) == 1 and cm[0]["vals"][1:] == [var("self.rng"), var("self.wc")] and len(srs) == 1 and srs[0]["vals"][1] == var("self.wc") and srs[0]["vals"][3] == var("self.rng")
     # Random policy: Err(NoAvailRows) exactly when fewer than wc rows could be chosen (early return or final if/else alike)
+    # Uniform policy: candidates are ordered by their current weight *only*, so that equal-weight rows are tied and the tie is broken by
+    # the construction's rng inside sort_by_random_sel (a comparator that also orders by row index leaves nothing to choose)
+    cmp_ok, whyc = False, "sort_by_random_sel call not found"
+    if len(srs) == 1:
+        cmpv = srs[0]["vals"][2]
+        try:
+            from ..idioms import as_closure
+            cv_ = Tracer(F, "NONE", inline=lambda p_: F.private_helper(p_, MN)).apply(as_closure(F, t2, vkey(cmpv) if isinstance(cmpv, tuple) and len(cmpv) > 1 and isinstance(cmpv[1], dict) else cmpv),
+                                                                                 [("tuple", [var("r1"), var("w1")]), ("tuple", [var("r2"), var("w2")])])
+            cmp_ok = cv_ == app("std::cmp::Ord::cmp", var("w1"), var("w2"))
+            whyc = "comparator((r1, w1), (r2, w2)) = %r ; required w1.cmp(w2) (weights only)" % (cv_,)
+        except Unsupported as ex:
+            whyc = "comparator unreadable: %s" % ex
+    ck.inst("Q2", "select_rows:uniform-orders-by-weight-only", cmp_ok, srs[0]["sp"] if srs else b.span, whyc)
     # evaluated for every (number of rows chosen, wc): the Random policy fails exactly when fewer than wc rows could be chosen
     short = True
     try:
